@@ -216,7 +216,8 @@ def c05(res, tier, rng, wd):
     thorough = tier == "thorough"
     scs = e1.gen_c05(rng, 0, thorough)
     run_e1(res, "C05", scs, wd, "c05")
-    res.assumptions = E1_ASSUME + ["server role only in this engine; the client role is exercised by the E2 part of this check"]
+    run_e2(res, "C05", e2.gen_c05_client(rng, thorough), wd, "c05client")
+    res.assumptions = E1_ASSUME + ["both roles: server session (E1) and client request loop (E2)"]
     return res.finish(rule="pipelined MBAP streams of 1-4 receive-buffer capacities, a max-size frame, two short frames split at "
                            "every offset, and each malformed header kind behind/ahead of valid frames; each stream under systematic "
                            "chunkings (all, 1-byte, 259/260/261, 260 then trickle, random); MbapHead only sees the concatenation, so any "
@@ -228,6 +229,7 @@ def c06(res, tier, rng, wd):
     thorough = tier == "thorough"
     scs = e1.gen_c06(rng, 0, thorough)
     run_e1(res, "C06", scs, wd, "c06")
+    run_e2(res, "C06", e2.gen_c06_client(rng, thorough), wd, "c06client")
     res.assumptions = E1_ASSUME + ["CRC-16/MODBUS is computed by TLC from its own table (Rtu.tla), independent of the crc crate"]
     return res.finish(rule="RTU request frames of every function (min/typical/max size, broadcast): every single-bit flip "
                            "(sampled for the 250-byte frames in the quick tier), sampled double-bit flips, bursts of 2..16 bits, the same under "
@@ -242,6 +244,7 @@ def c07(res, tier, rng, wd):
     decs = e1.DECODES if thorough else [[0, 0, 0], [3, 2, 2]] + [rng.choice(e1.DECODES) for _ in range(4)]
     scs = e1.gen_c07(rng, 0, 6000 if thorough else 700, decs)
     run_e1(res, "C07", scs, wd, "c07")
+    run_e2(res, "C07", e2.gen_c07_client(rng, 3000 if thorough else 400), wd, "c07client")
     res.assumptions = E1_ASSUME + ["coverage of the input space is that of a structured fuzzer (grammar-aware mutation + random bytes), "
                                    "TLC decides each run: a panic, a task that never becomes idle, a watchdog hit or an unhonoured shutdown has no matching spec step",
                                    "dev profile: overflow checks and debug assertions on"]
@@ -283,9 +286,112 @@ def c20(res, tier, rng, wd):
     base += e1.gen_c05(rng, 0, False)[:: (3 if thorough else 12)]
     scs = e1.with_decode_variants(rng, base, 0, positions=None if thorough else 3, all_levels=thorough)
     run_e1(res, "C20", scs, wd, "c20")
+    cbase = e2.gen_c10(rng, 60 if thorough else 20) + e2.gen_c12(rng)[:: (4 if thorough else 12)] + e2.gen_c11(rng)[:4] \
+        + e2.gen_c04(rng)[:: (10 if thorough else 30)]
+    run_e2(res, "C20", e2.with_decode_variants(rng, cbase, positions=None if thorough else 3, all_levels=thorough), wd, "c20client")
     res.assumptions = E1_ASSUME + ["a tracing subscriber at INFO is installed so the Display/Loggable re-parsing code runs",
                                    "server role in this engine; client role is exercised by the E2 part of this check"]
     return res.finish(rule="every base script (lattice, random sequences, chunked streams) at the lowest and highest decode level "
                            "(thorough: all 36) and with a set_decode_level command injected (quick: 3 positions, thorough: every position, "
                            "including between the chunks of a partial frame); the specification never reads the level, so one expected "
                            "behaviour serves all variants")
+
+
+# --------------------------------------------------------------------------- E2 based checks
+import e2  # noqa: E402
+
+E2_ASSUME = ["TLC and Client.tla / ModbusPdu.tla (client codec, request loop)",
+             "tokio's paused clock and select!; the harness's scripted stream; replies get the tx id of the last transmitted frame filled in mechanically",
+             "requests enter through the public Channel / CallbackSession API over verif::ClientSession (production ClientLoop::run)"]
+
+
+def report_e2(res, pid, rejs):
+    for sc, r in rejs:
+        text = e2.describe_rejection(sc, r)
+        fid = match_known(pid, "e2", sc, r)
+        if fid:
+            res.known(fid[0], fid[1])
+        else:
+            res.violation(text, e2.replay_obj(pid, sc, r))
+
+
+def sample_e2(scs, k=2):
+    out = []
+    for i in list(range(0, len(scs), max(1, len(scs) // k)))[:k]:
+        s = scs[i]
+        out.append({"tag": s["tag"], "framing": s["framing"], "queue": s["queue"], "max_timeouts": s["max_timeouts"],
+                    "first_steps": [json.dumps(x)[:140] for x in s["steps"][:5]]})
+    return out
+
+
+def run_e2(res, pid, scs, wd, name):
+    res.samples += sample_e2(scs)
+    rejs = e2.check_scripts(res, scs, wd, name)
+    report_e2(res, pid, rejs)
+
+
+def _replay_e2(res, pid, obj, wd):
+    rejs = e2.check_scripts(res, [obj["scenario"]], wd, "replay")
+    report_e2(res, pid, rejs)
+
+
+REPLAYERS["e2"] = _replay_e2
+
+
+@check("C03")
+def c03(res, tier, rng, wd):
+    scs = e2.gen_c03(rng, tier == "thorough")
+    run_e2(res, "C03", scs, wd, "c03")
+    res.assumptions = E2_ASSUME + ["AddressRange is built with its constructor (struct literals bypass validation: out of the property's scope)"]
+    return res.finish(rule="the (kind, start, count / value-list length) lattice incl. 0, limit-1, limit, limit+1, address-overflow and "
+                           ">65535 values, every unit id class, TCP and RTU framing, future and callback style; each request is either "
+                           "transmitted as exactly EncodeRequest(..) framed by MbapFrame/RtuFrame (computed by TLC) or completes with an error "
+                           "and no tx; TxBounded (<= 260 / 256 bytes) is an invariant on every state")
+
+
+@check("C04")
+def c04(res, tier, rng, wd):
+    scs = e2.gen_c04(rng, tier == "thorough")
+    run_e2(res, "C04", scs, wd, "c04")
+    res.assumptions = E2_ASSUME
+    return res.finish(rule="for every request kind and a range lattice: the correct reply, every other function byte (sampled in quick), "
+                           "exception replies with many codes / truncated / with trailing bytes, the empty PDU, truncations and extensions, "
+                           "byte-count field lies, data length +-1, echo variations; the value delivered to the future/callback must be exactly "
+                           "DecodeResponse(request, pdu) as evaluated by TLC")
+
+
+@check("C10")
+def c10(res, tier, rng, wd):
+    thorough = tier == "thorough"
+    scs = e2.gen_c10(rng, 3000 if thorough else 400, thorough)
+    run_e2(res, "C10", scs, wd, "c10")
+    res.assumptions = E2_ASSUME + ["session-level part (one connection after another); the whole channel task is covered by the E3 part of this check"]
+    return res.finish(rule="random scripts over {submit (future / callback), genuine / exception / stale / malformed reply, tick, "
+                           "set-decode, enable/disable, EOF, read error, write error, new connection, garbage, shutdown, drop handles, abort} "
+                           "with queue capacities 1/2/3/16 and timeout limits 0..3; at the end the task and all handles go away; every submitted "
+                           "request must have exactly one completion of the class the specification derives (ClientTrace: OnCfg requires nothing pending)")
+
+
+@check("C11")
+def c11(res, tier, rng, wd):
+    thorough = tier == "thorough"
+    scs = e2.gen_c11(rng, thorough)
+    run_e2(res, "C11", scs, wd, "c11")
+    if thorough:
+        run_e2(res, "C11", e2.gen_c11_wrap(rng), wd, "c11wrap")
+    res.assumptions = E2_ASSUME
+    return res.finish(rule="frames whose transaction id is stale by k / ahead by k (k in 1,2,3,255..257,32768,65534,65535), duplicates "
+                           "and unsolicited frames, delivered while a request is outstanding, while idle, and after a timeout; invalid requests "
+                           "taken from the queue must still advance the id; several queued requests must be transmitted one at a time in FIFO "
+                           "order; thorough: 66 000 requests across the 16-bit wrap at TxMod = 65536")
+
+
+@check("C12")
+def c12(res, tier, rng, wd):
+    scs = e2.gen_c12(rng, tier == "thorough")
+    run_e2(res, "C12", scs, wd, "c12")
+    res.assumptions = E2_ASSUME + ["virtual time: the script advances the clock explicitly, so 'exactly at the deadline' is observable"]
+    return res.finish(rule="whole and split replies delivered at deadline-1 / deadline / deadline+1 for timeouts 1..1000 ms, differing "
+                           "per-request timeouts, outcome sequences over {timeout, success, exception, bad reply} up to length 6 for limits "
+                           "N in {none,1,2,3,5} followed by a new connection, and a partial frame left by a dying connection followed by "
+                           "timely replies on the next one")
